@@ -397,7 +397,21 @@ impl ByteCompiler<'_> {
             self.patch_handler(handler_index);
 
             let error = self.register_allocator.alloc();
-            self.bytecode.emit_exception(error.variable());
+            if self.is_generator() {
+                // When `return()` is called on a generator that is suspended in the loop body,
+                // the `Exception` opcode rethrows the empty exception. The loop is left with a
+                // return completion, so the iterator has to be closed and errors of the close
+                // are not ignored.
+                let generator_return_handler = self.push_handler();
+                self.bytecode.emit_exception(error.variable());
+                let is_throw = self.jump();
+                self.patch_handler(generator_return_handler);
+                self.iterator_close(for_of_loop.r#await());
+                self.bytecode.emit_re_throw();
+                self.patch_jump(is_throw);
+            } else {
+                self.bytecode.emit_exception(error.variable());
+            }
 
             // NOTE: Capture throw of the iterator close and ignore it.
             let handler_index = self.push_handler();
